@@ -1,6 +1,7 @@
 """C07 - protected records cannot be altered, reordered, replayed or truncated undetected (gmtls record layer)."""
 ID = "C07"
 PROPS = "Props/C07.v"
+COQ_TIMEOUT = 5400   # Coq build of this property incl. rebuilt dependencies; generous: on a loaded machine a rebuild after an upstream edit took > 1500 s
 GEN = ["tlssuites"]                          # Agree/KeyModel.v (key block derivation for the capture cases) reads the labels from Gen/TLSSuites.v
 COQ_EXTRA_TARGETS = ["Rec/GcmRefTest.vo"]      # RFC 8998 A.1 (SM4-GCM) test of the GCM spec used by the runner
 LEGS = [
